@@ -8,14 +8,20 @@ Inductive entry :=
 | EClientAuth   (* op.ClientJWTAuth *)
 | EPrivateKey   (* op.AuthorizePrivateJWTKey *)
 | EGrant        (* op.JWTProfile handler, identity passed to ValidateJWTProfileScopes *)
-| ERouter (legacy : bool) (client_id : string).
-    (* POST /device_authorization with a client_assertion on the real router (Provider /
-       LegacyServer) of ONE long-lived dynamic-issuer provider; [client_id] = the plain
-       client_id form parameter sent along ("" = none); identity = the client the device
-       authorization was stored for; v_issuer = the issuer of this request's host *)
+| ERouter (legacy : bool) (ep : endpoint) (client_id : string) (owner : string).
+    (* a POST carrying the assertion (client_assertion, or assertion for the jwt-bearer grant)
+       to endpoint [ep] of the real router (Provider / LegacyServer) of ONE long-lived
+       dynamic-issuer provider; [client_id] = the plain client_id form parameter sent along
+       ("" = none); [owner] = the client the redeemed code / refresh token / token to revoke
+       belongs to, resp. the audience of the introspected token ("" where nothing is redeemed);
+       identity = the client the storage recorded the device authorization / issued the new
+       token for (jwt-bearer: the subject of the issued token), resp. [owner] when the storage
+       revoked / disclosed the token; v_issuer = the issuer of this request's host *)
 
 Inductive input :=
-| IAssert (e : entry) (helper : bool)   (* helper: built by the library's client helpers *)
+| IAssert (e : entry) (helper : option hcall)
+    (* Some h: [tok] is what a client helper of the library SENT (captured at the wire)
+       for the call h; the n-th call on a long-lived helper instance is just another h *)
     (v : vcfg) (t : keytable) (cl : clienttable) (t0 t1 : Z) (tok : token claims)
 | IRequest (via_authorize supported : bool) (t : keytable) (issuer : string)
     (outer : authreq) (tok : token reqobj).
@@ -40,9 +46,8 @@ Definition model_assert (e : entry) (v : vcfg) (t : keytable) (cl : clienttable)
       | Ok id => Ok (id, "")
       | Err _ => Err EOther
       end
-  | ERouter legacy _ =>   (* HTTP error answers are not classified either *)
-      match (if legacy then authorize_private_jwt_key sym_verify v t cl now tok
-             else provider_router_auth sym_verify v t cl now tok) with
+  | ERouter legacy ep _ owner =>   (* HTTP error answers are not classified either *)
+      match router_endpoint_auth sym_verify legacy ep owner v t cl now tok with
       | Ok id => Ok (id, "")
       | Err _ => Err EOther
       end
@@ -80,24 +85,33 @@ Definition assertion_conditions (v : vcfg) (t : keytable) (t0 t1 : Z) (d : sigde
 Definition is_private_key_jwt (cl : clienttable) (id : string) : bool :=
   match lookup_client cl id with Some m => String.eqb m private_key_jwt | None => false end.
 
-(* an assertion produced by one of the library's client helpers configured for this
-   provider's issuer (what it writes into iss, sub and aud is the helper's business and
-   NOT a premise here), with iat = build time and exp at most 1 h later, presented right
-   after it was built, for a registered key, to a verifier with non-negative offset and
-   max age 0 or >= 1 h *)
+(* an assertion produced by a call [h] of one of the library's client helpers configured
+   for this provider's issuer (what the helper writes into iss, sub, aud, iat and exp is
+   the helper's business and NOT a premise here: only WHEN it was called and the lifetime
+   it was asked for), for a registered key, presented after the call and within that
+   lifetime to a verifier with non-negative offset whose max age - whatever it is - covers
+   the time since the call (1.5 s of slack: iat is cut to whole seconds, the bound is
+   rounded) *)
 Definition must_accept (e : entry) (v : vcfg) (t : keytable) (cl : clienttable) (t0 t1 : Z)
-    (d : sigdesc) (c : claims) : bool :=
+    (h : hcall) (d : sigdesc) (c : claims) : bool :=
   sd_wf d && signed_by_named_client t (c_iss c) d
-  && Z.leb 0 (v_offset v) && (Z.eqb (v_max_age v) 0 || Z.leb (3600 * second) (v_max_age v))
-  && Z.ltb 0 (c_iat c) && Z.leb (c_iat c * second) t0 && Z.leb 0 t0
-  && Z.ltb (t1 + v_offset v) (c_exp c * second) && Z.leb (c_exp c) (c_iat c + 3600)
+  && Z.leb 0 (v_offset v)
+  && Z.leb second (h_t0 h) && Z.leb (h_t0 h) (h_t1 h) && Z.leb (h_t1 h) t0
+  && (Z.eqb (v_max_age v) 0 || Z.leb (t1 - h_t0 h + second + half_second) (v_max_age v))
+  && Z.leb (t1 + v_offset v + second) (h_t0 h + h_life h * second)
   && match e with
-     | EPrivateKey | ERouter true _ => is_private_key_jwt cl (c_iss c)
-     | ERouter false _ => match lookup_client cl (c_iss c) with Some _ => true | None => false end
+     | EPrivateKey => is_private_key_jwt cl (c_iss c)
+     | ERouter legacy ep _ owner =>
+         match ep_auth legacy ep with
+         | AKPk => is_private_key_jwt cl (c_iss c)
+         | AKLookup => match lookup_client cl (c_iss c) with Some _ => true | None => false end
+         | AKVerify => true
+         end
+         && (negb (ep_owned ep) || String.eqb (c_iss c) owner)   (* it redeems what is its own *)
      | _ => true
      end.
 
-Definition spec_assert (e : entry) (helper : bool) (v : vcfg) (t : keytable) (cl : clienttable)
+Definition spec_assert (e : entry) (helper : option hcall) (v : vcfg) (t : keytable) (cl : clienttable)
     (t0 t1 : Z) (tok : token claims) (r : res (string * string)) : bool :=
   match r with
   | Ok (id, sub) =>
@@ -107,13 +121,18 @@ Definition spec_assert (e : entry) (helper : bool) (v : vcfg) (t : keytable) (cl
           && String.eqb id (c_iss c)
           && match e with
              | EVerify => String.eqb sub (c_sub c)
-             | EPrivateKey | ERouter true _ => is_private_key_jwt cl (c_iss c)
+             | EPrivateKey => is_private_key_jwt cl (c_iss c)
+             | ERouter legacy ep _ _ =>
+                 match ep_auth legacy ep with AKPk => is_private_key_jwt cl (c_iss c) | _ => true end
              | _ => true
              end
       | _ => false
       end
   | Err _ =>
-      negb (helper && match tok with TJws d c => must_accept e v t cl t0 t1 d c | _ => false end)
+      match helper, tok with
+      | Some h, TJws d c => negb (must_accept e v t cl t0 t1 h d c)
+      | _, _ => true
+      end
   end.
 
 Definition strs_eqb := list_eqb String.eqb.
@@ -224,10 +243,12 @@ Definition obs_eqb (a b : observed) : bool :=
   | _, _ => false
   end.
 
+Definition ep_nat (ep : endpoint) : nat :=
+  match ep with EpDevice => 0 | EpCode => 1 | EpRefresh => 2 | EpRevoke => 3 | EpIntrospect => 4 | EpBearer => 5 end.
+
 Definition entry_nat (e : entry) : nat :=
   match e with EVerify => 0 | EClientAuth => 1 | EPrivateKey => 2 | EGrant => 3
-  | ERouter false c => if String.eqb c "" then 4 else 5
-  | ERouter true c => if String.eqb c "" then 6 else 7 end.
+  | ERouter legacy ep c _ => 4 + ep_nat ep + (if legacy then 6 else 0) + (if String.eqb c "" then 0 else 12) end.
 
 (* which guard of ParseRequestObject decides (all four answer invalid_request) *)
 Definition request_guard (outer : authreq) (issuer : string) (tok : token reqobj) : nat :=
@@ -246,7 +267,7 @@ Definition request_guard (outer : authreq) (issuer : string) (tok : token reqobj
 (* decision-path class of the model run; 0 = rejected by the first guard (shape) *)
 Definition path (i : input) (o : observed) : nat :=
   match i, o with
-  | IAssert e _ _ _ _ _ _ (TJws _ _), OAssert (Ok _) => 20 + entry_nat e
+  | IAssert e _ _ _ _ _ _ (TJws _ _), OAssert (Ok _) => 70 + entry_nat e
   | IAssert e _ _ _ _ _ _ (TJws _ _), OAssert (Err x) => err_nat x
   | IAssert _ _ _ _ _ _ _ _, _ => 0
   | IRequest _ _ _ iss outer tok, OReq None a _ => if authreq_eqb a outer then 40 else 41
